@@ -103,12 +103,11 @@ def maxleaf(t):
 
 
 def oracle(t, x, ks):
-    """None if the three views agree with the polynomial, else a reason.  Only trees whose leaves respect the
-    code's 301-term truncation are judged on evaluation."""
+    """None if the three views agree with the polynomial, else a reason (leaves of any length)."""
     try:
         g = build(t)
         p = plist(t)
-        small = maxleaf(t) <= 301
+        small = True
         for i in range(NQ + 2):
             want = p[i] if i < len(p) else 0
             if F(g[i]) != want: return f"coefficient {i}: code {g[i]} polynomial {want}"
@@ -120,7 +119,7 @@ def oracle(t, x, ks):
                 if F(d[i]) != want: return f"dx({k}) coefficient {i}: code {d[i]} polynomial {want}"
             if small and F(d(x)) != pev(q, x): return f"dx({k}) value at {x}: code {d(x)} polynomial {pev(q, x)}"
     except RecursionError:
-        raise
+        return f"RecursionError: the code does not come back from a tree of depth {depth(t)} (the polynomial is {p[:4]}...)"
     except Exception as ex:
         return f"{type(ex).__name__}: {ex}"
     return None
@@ -173,7 +172,7 @@ if __name__ == '__main__':
         n, md = int(sys.argv[4]), int(sys.argv[5])
         def cases():
             for i in range(n):
-                if i % 40 == 39:    # the other side of the truncation hypothesis: a leaf longer than 301 terms
+                if i % 40 == 39:    # a leaf longer than the 301 terms evaluate() adds up when no largest term is given
                     yield ['add', ['cs', [fr(F(rnd.randint(-2, 2), 3)) for _ in range(rnd.choice([301, 302, 310]))]], gen(rnd, 1)]
                 else:
                     yield gen(rnd, rnd.randint(1, md))
@@ -203,8 +202,6 @@ if __name__ == '__main__':
                     for i in (0, 1, 2, 5):
                         inp.append(f"DXCOEFF {k} {i}"); exp.append(fr(d[i]))
                     inp.append(f"DXEVAL {k} {fr(x)}"); exp.append(fr(d(x)))
-            except RecursionError:
-                raise
             except Exception as ex:
                 while len(exp) < len([l for l in inp if l.split()[0] in ('COEFF', 'EVAL', 'DXCOEFF', 'DXEVAL')]):
                     exp.append(f"EXC {type(ex).__name__}")
